@@ -18,7 +18,8 @@
 EXTENDS Naturals, Sequences, FiniteSets, TLC
 
 CONSTANTS Conn, Ident, MaxAtt, Weak,
-          AVals,      \* slice of {"good","zero","N","missing"}
+          AVals,      \* slice of {"good","zero","N","missing","replay"}; replay = A and proof recorded byte for byte from an
+                      \* accepted exchange on ANOTHER connection (the proof is then whatever was recorded)
           Proofs,     \* slice of {"right","wrong","missing"}
           Seals,      \* slice of {"this","other","zero","random"}
           Bodies,     \* slice of {"genuine","badsig","mismatch","badtlv"}
@@ -63,16 +64,17 @@ Reject(c, kind) ==
 Verify(c, A, proof) ==
   LET m == [t |-> "Verify", A |-> A, proof |-> proof] IN
   /\ A \in AVals /\ proof \in Proofs
-  /\ A = "good" => att[c] < MaxAtt
+  /\ A \in {"good", "replay"} => att[c] < MaxAtt
+  /\ A = "replay" => (proof = "right" /\ \E o \in Conn \ {c} : pS[o] # 0)
   /\ IF step[c] # "StartResp"
      THEN /\ Reset(c) /\ Reply(c, m, "HttpError") /\ UNCHANGED <<S, K, att, pS, proved, store>>
-     ELSE IF A # "good"      \* ComputeKey rejects A mod N = 0 (a missing A is empty = 0): :128-131
+     ELSE IF A \notin {"good", "replay"}      \* ComputeKey rejects A mod N = 0 (a missing A is empty = 0): :128-131
      THEN /\ step' = [step EXCEPT ![c] = IF Guard("verify_bad_A_resets") THEN "Waiting" ELSE "VerifyResp"]
           /\ Reply(c, m, "HttpError") /\ UNCHANGED <<S, K, att, pS, proved, store>>
      ELSE LET n == att[c] + 1 IN
           /\ att' = [att EXCEPT ![c] = n]
           /\ S' = [S EXCEPT ![c] = n]                       \* set before the proof is looked at
-          /\ IF proof = "right"
+          /\ IF proof = "right" /\ A = "good"      \* a replayed proof was computed for another B: it is wrong here
              THEN /\ step' = [step EXCEPT ![c] = "VerifyResp"]
                   /\ K' = [K EXCEPT ![c] = n] /\ pS' = [pS EXCEPT ![c] = n]
                   /\ proved' = [proved EXCEPT ![c] = TRUE]
